@@ -1008,6 +1008,12 @@ func runQueue(fs *flag.FlagSet, args []string) {
 			add(strings.Replace(lin, "C01 history has no legal sequential FIFO witness", "C15 the single-goroutine history is not that of a plain FIFO list", 1))
 		}
 		add(r.monitorIter(offered, single))
+		if m := r.monitorSequentialTraversals(); m != "" {
+			// weak consistency (C13) and plain sequential behaviour (C15) both promise it
+			rest := strings.SplitN(m, " ", 2)[1]
+			add("C13 " + rest)
+			add("C15 " + rest)
+		}
 		if frozenTid < 0 {
 			add(r.monitorAccounting(offered, completed, single))
 		}
@@ -1047,3 +1053,67 @@ func runQueue(fs *flag.FlagSet, args []string) {
 }
 
 func init() { modes["queue"] = runQueue }
+
+// monitorSequentialTraversals (sequential histories only): a traversal that runs with nothing interleaved returns exactly the elements
+// queued when it started, in queue order (its own Removes only delete what it has already returned); if it was cut short by maxNext it
+// returns a prefix. The list is replayed from the history in invocation order.
+func (r *qrun) monitorSequentialTraversals() string {
+	if !r.sequential {
+		return ""
+	}
+	type evt struct {
+		at   int
+		kind string // offer poll remove trav
+		v    int
+		tr   *travRec
+	}
+	var evs []evt
+	for _, o := range r.h.ops {
+		switch o.kind {
+		case "offer":
+			evs = append(evs, evt{o.inv, "offer", o.arg, nil})
+		case "poll":
+			if strings.HasPrefix(o.res, "v") {
+				var v int
+				fmt.Sscanf(o.res, "v%d", &v)
+				evs = append(evs, evt{o.inv, "del", v, nil})
+			}
+		case "remove":
+			evs = append(evs, evt{o.inv, "del", o.arg, nil})
+		}
+	}
+	for _, tr := range r.travs {
+		evs = append(evs, evt{tr.start, "trav", 0, tr})
+	}
+	sort.SliceStable(evs, func(i, j int) bool { return evs[i].at < evs[j].at })
+	var list []int
+	for _, e := range evs {
+		switch e.kind {
+		case "offer":
+			list = append(list, e.v)
+		case "del":
+			for i, x := range list {
+				if x == e.v {
+					list = append(list[:i:i], list[i+1:]...)
+					break
+				}
+			}
+		case "trav":
+			tr := e.tr
+			var got []int
+			for _, v := range tr.vals {
+				if v >= 0 {
+					got = append(got, v)
+				}
+			}
+			want := list
+			if !tr.complete && len(got) <= len(want) {
+				want = want[:len(got)]
+			}
+			if fmt.Sprint(got) != fmt.Sprint(want) {
+				return fmt.Sprintf("%s a traversal with nothing interleaved returned %d element(s) %s, the queue held %d: %s", r.tag, len(got), abbreviate(fmt.Sprint(got)), len(list), abbreviate(fmt.Sprint(list)))
+			}
+		}
+	}
+	return ""
+}
